@@ -3,7 +3,7 @@ import Gofasta.Model.Pipeline
 /-
 C19 — a failed output write is never reported as success (partial).
 Proved: (1) on the call-site facts regenerated from the Go source by go/ast on this run, every output write
-in the thirteen writer functions has its error checked and propagated; (2) for ANY run (any sequence of calls
+in the fifteen writer functions has its error checked and propagated; (2) for ANY run (any sequence of calls
 made at checked sites, any length) and ANY fault point k within the run, the writer reports the failure.
 Observed, not proved: that the Go functions deliver that error to their callers and to the exit status —
 the fault-enumeration stream drives the real entry points with a writer failing at every k.
@@ -16,7 +16,7 @@ def expectedWriters : List String :=
   ["closest.writeClosest", "closest.writeClosestN", "closest.writeClosestNTable", "fastaio.WriteAlignment",
    "fastaio.WriteWrapAlignment", "sam.writePairwiseAlignment", "snps.writeOutput", "snps.aggregateWriteOutput",
    "updown.writeOutput", "updown.writeUpDownCatchment", "updown.writeUpdownTable", "variants.WriteVariants",
-   "variants.AggregateWriteVariants"]
+   "variants.AggregateWriteVariants", "sam.writeInsMap", "sam.writeDelMap"]
 
 /-- **C19.writers_present** — each of them was found in the source and writes somewhere -/
 theorem writers_present :
